@@ -105,6 +105,13 @@ def routes_agree(which):
     pr = get('prysm.propagation')
     m, n = int(rng.integers(1, 8)), int(rng.integers(1, 8))
     M, N = int(rng.integers(1, 10)), int(rng.integers(1, 10))
+    r_ = rng.random()
+    if r_ < 0.25:
+        # structured stress shapes: strongly non-square inputs with SQUARE outputs (and the transpose), equal in/out counts
+        m, n = [(3, 10), (6, 10), (10, 3), (2, 9), (9, 2), (5, 12)][int(rng.integers(0, 6))]
+        M = N = int(rng.choice([4, 8, 5]))
+    elif r_ < 0.4:
+        M, N = (m, n) if rng.random() < 0.5 else (n, m)
     f = rng.standard_normal((m, n))
     if rng.random() < 0.6:
         f = f + 1j * rng.standard_normal((m, n))
@@ -180,6 +187,12 @@ def history(seed_=None):
     try:
         f = rng.standard_normal((3, 4)) + 1j * rng.standard_normal((3, 4))
         args = (f, 2.0, (5, 6), (0.5, 1.0))
+        if rng.random() < 0.5:
+            # a history that contains the 'twin' transform: same Q and shift, input and output shapes exchanged, other direction
+            g = rng.standard_normal((5, 6)) + 1j * rng.standard_normal((5, 6))
+            ft.mdft.idft2(g, 2.0, (3, 4), (0.5, 1.0))
+            ft.mdft.dft2(g, 2.0, (3, 4), (0.5, 1.0))
+            ft.czt.iczt2(g, 2.0, (3, 4), (0.5, 1.0))
         for _ in range(int(rng.integers(1, 7))):
             r = rng.random()
             if r < 0.25:
